@@ -133,6 +133,18 @@ PROPS = {
         text="Files are encoded by the harness from a ground-truth model, so reader fidelity (metadata, timecodes to < 1 ns, rows, runs, styles, diacritic composition) is decided against ground truth; writer output is decoded by the library and by the harness's own decoder; the character table and the frame-number domain are enumerated completely.",
         note="Trusted: the harness's Tech 3264 field table and ISO 6937 table (typed from the standard), x/text NFC, rapid.",
         design="5/C05", exhaustive_note=True),
+    "C06": P(
+        "TestC06", "exploration",
+        "case = ground-truth page schedule x multiplexing x reader options; schedule = selected page M/TU (decimal digits, magazine 1..8), 1..5 instances with increasing PTS (some erase-only), 1..4 rows at distinct rows 1..24, row = colour/size codes before the start box, boxed segments that begin where a colour (0..7) or size (0x0c..0x0f) code changes state, text over G0 incl. the 13 national-option positions, national option C12-C14 per instance (7 Latin sub-sets), parity errors injected in text cells; "
+        "multiplexing = serial or parallel magazine mode, interleaved page of another magazine (parallel), same page number in another magazine, terminating page of the same magazine (or any magazine in serial mode) with its own rows, page with hexadecimal digits aliasing tens*10+units, 0xFF time-filling headers, stuffing and non-subtitle data units carrying look-alike packets, X/26 X/27 8/30 and other magazines' X/28 M/29, instance split over two PES packets, a second teletext PID with the same page, non-teletext streams first in the PMT, PAT/PMT repeated, PES before the first instance / after the last one moving the time origin; reader options page and PID given or detected. "
+        "Non-trivial = every stream with >=1 instance (labels record the classes); distinct = hash of the case.",
+        ["encoder written from ETS 300 706 / EN 300 472 / ISO 13818-1 in the harness (Hamming 8/4 from the parity equations, odd parity, CRC-32/MPEG); national sub-sets typed from table 36, where the standard has arrows/bars (5 glyphs) the de-facto telxcc approximations are accepted too",
+         "rows of the selected page directly follow its header (before any terminating header); no row number is repeated within an instance; every row has boxed text; X/28 and M/29 of the selected magazine are C08's subject",
+         "time tolerance 1 ns (two floor divisions in the demultiplexer); for rows with a parity error only the text (white space removed) is compared"],
+        shards=(4, 16), technique="model-based property testing with an independent from-the-standard TS/PES/teletext encoder and a ground-truth page schedule (expected cues, timing, runs known by construction)",
+        text="The stream is assembled by the harness, so which cues, times, lines, runs, colours and national characters must come out is known by construction; distractors of every kind named in the property are multiplexed in and must not contribute.",
+        note="Trusted: the harness encoder and its national-option table; go-astits as demultiplexer (third party, outside the property).",
+        design="5/C06"),
 }
 
 # Properties deliberately not claimed (reason each); anything else missing from PROPS is work in progress.
